@@ -54,23 +54,25 @@ theorem canonical_filter_is_denote (nok : NumOK) (doc : J N) (e : Expr) (he : e.
   ⟨e.ast, parse_canonical nok e he fuel hf, filter_accepts_iff ops rx doc e hw⟩
 
 /-- **the lexer reads a spelled-out token sequence back**: for every sequence of lexable tokens (names,
-    keywords, decimal literals, string literals without NUL, the punctuation of the language) written with
+    keywords, decimal literals, string literals without NUL between double quotes or — for the strings `sq`
+    selects, which then contain no `'` — between single quotes, the punctuation of the language) written with
     arbitrary white space in front of the first token, between two tokens either white space or nothing
     where the second cannot be mistaken for a continuation of the first (`user.name`, `tags[0]`,
     `a==1`: `FollowOK`), and arbitrary white space at the end, `NextToken` called repeatedly serves exactly those
     tokens and then end-of-input for ever (`SimSrc … (listSrc tokens) positions`) -/
-theorem lexer_reads_spelled_tokens (items : List (Bytes × Token)) (trail : Bytes) (hok : SpellOK items)
-    (htrail : isWsList trail) :
-    SimSrc (nextToken (ofList (spell items ++ trail))) (listSrc (items.map (·.2))) (posOf items trail) :=
-  lexes items trail hok htrail
+theorem lexer_reads_spelled_tokens (sq : Token → Bool) (items : List (Bytes × Token)) (trail : Bytes)
+    (hok : SpellOK sq items) (htrail : isWsList trail) :
+    SimSrc (nextToken (ofList (spell sq items ++ trail))) (listSrc (items.map (·.2))) (posOf sq items trail) :=
+  lexes sq items trail hok htrail
 
 /-- **from text to tree**: any spelling of the canonical tokens of an expression, with arbitrary white
-    space (spaces, tabs, newlines), parses — lexer, lazy token pulling, parser, end-of-input check and the
+    space (spaces, tabs, newlines) and either kind of quotes, parses — lexer, lazy token pulling, parser, end-of-input check and the
     model's fuel included — to the documented tree -/
-theorem text_parses_to_documented_tree (nok : NumOK) (e : Expr) (he : e.OK nok) (items : List (Bytes × Token))
-    (trail : Bytes) (htoks : items.map (·.2) = e.toks 0) (hok : SpellOK items) (htrail : isWsList trail) :
-    parse (ofList (spell items ++ trail)) nok = .ok e.ast :=
-  parse_text nok e he items trail htoks hok htrail
+theorem text_parses_to_documented_tree (sq : Token → Bool) (nok : NumOK) (e : Expr) (he : e.OK nok)
+    (items : List (Bytes × Token)) (trail : Bytes) (htoks : items.map (·.2) = e.toks 0) (hok : SpellOK sq items)
+    (htrail : isWsList trail) :
+    parse (ofList (spell sq items ++ trail)) nok = .ok e.ast :=
+  parse_text sq nok e he items trail htoks hok htrail
 
 /-- every expression whose field names are names (not keywords), whose number literals are decimal literals
     and whose strings contain no NUL byte has such a spelling: its canonical text, tokens separated by
@@ -78,6 +80,13 @@ theorem text_parses_to_documented_tree (nok : NumOK) (e : Expr) (he : e.OK nok) 
 theorem canonical_text_parses (nok : NumOK) (e : Expr) (he : e.OK nok) (hl : e.Lex) :
     parse (ofList e.text) nok = .ok e.ast :=
   parse_canonical_text nok e he hl
+
+/-- the same with any choice of strings written between single quotes, provided those contain no `'`
+    (`status == 'active'`, the README's other spelling) -/
+theorem canonical_text_parses_either_quote (sq : Token → Bool) (nok : NumOK) (e : Expr) (he : e.OK nok) (hl : e.Lex)
+    (hq : e.QuotesOK sq) :
+    parse (ofList (e.textQ sq)) nok = .ok e.ast ∧ parse (ofList (e.tightTextQ sq)) nok = .ok e.ast :=
+  ⟨parse_canonical_textQ sq nok e he hl hq, parse_tight_textQ sq nok e he hl hq⟩
 
 /-- … and its tight text, with a space only where two tokens would otherwise run together
     (`user.name == "x" AND tags[0] >= 2`) -/
@@ -135,6 +144,13 @@ example : (Expr.and (.cmp .ge (.field b!"age") (.num b!"18")) (.strop .startsWit
 example : (Expr.or (.group (.and (.cmp .eq (.field b!"status") (.str b!"active")) (.cmp .ge (.field b!"age") (.num b!"18"))))
       (.cmp .eq (.field b!"role") (.str b!"admin"))).tightText =
     b!"(status==\"active\"AND age>=18)OR role==\"admin\"" := by decide
+
+/-- … and with single quotes: `status=='active'AND age>=18` -/
+example : (Expr.and (.cmp .eq (.field b!"status") (.str b!"active")) (.cmp .ge (.field b!"age") (.num b!"18"))).tightTextQ (fun _ => true) =
+    b!"status=='active'AND age>=18" := by decide
+
+example : (Expr.and (.cmp .eq (.field b!"status") (.str b!"active")) (.cmp .ge (.field b!"age") (.num b!"18"))).QuotesOK (fun _ => true) := by
+  unfold Expr.QuotesOK; decide
 
 /-- the tight text of a nested-path expression has no spaces around `.`, `[`, `]` -/
 example : (Expr.and (.cmp .eq (.dot (.field b!"user") b!"name") (.str b!"x")) (.cmp .ge (.index (.field b!"tags") b!"0") (.num b!"2"))).tightText =
